@@ -128,24 +128,46 @@ pub fn run_case_binary(case: &[Vec<Tok>]) -> Vec<Vec<Tok>> {
     if std::fs::write(&file, text.as_bytes()).is_err() {
         return vec![vec![-1]];
     }
-    let port = {
-        let l = std::net::TcpListener::bind("127.0.0.1:0").unwrap();
-        l.local_addr().unwrap().port()
-    };
-    let child = std::process::Command::new(&bin)
-        .args(["--vss", &file, "--address", "127.0.0.1", "--port", &port.to_string(), "--insecure", "--disable-authorization"])
-        .env_remove("KUKSA_DATABROKER_METADATA_FILE")
-        .stdout(std::process::Stdio::null())
-        .stderr(std::process::Stdio::null())
-        .spawn();
-    let Ok(mut child) = child else {
-        let _ = std::fs::remove_file(&file);
-        return vec![vec![-2]];
-    };
+    // a free port is picked and released again before the child binds it: another process may take it in between
+    // (the child then exits although the document is fine), so an exit is believed only when a second start, on
+    // another port, exits as well
     let rt = rt();
-    let out = rt.block_on(async {
+    let mut out = vec![vec![-2]];
+    let mut last_child = None;
+    for attempt in 0..3 {
+        let port = {
+            let l = std::net::TcpListener::bind("127.0.0.1:0").unwrap();
+            l.local_addr().unwrap().port()
+        };
+        let child = std::process::Command::new(&bin)
+            .args(["--vss", &file, "--address", "127.0.0.1", "--port", &port.to_string(), "--insecure", "--disable-authorization"])
+            .env_remove("KUKSA_DATABROKER_METADATA_FILE")
+            .stdout(std::process::Stdio::null())
+            .stderr(std::process::Stdio::null())
+            .spawn();
+        let Ok(mut child) = child else {
+            let _ = std::fs::remove_file(&file);
+            return vec![vec![-2]];
+        };
+        out = rt.block_on(serve_and_read(&mut child, port));
+        let _ = child.kill();
+        let _ = child.wait();
+        last_child = Some(());
+        if out != vec![vec![1]] || attempt == 1 {
+            break;
+        }
+    }
+    let _ = last_child;
+    let _ = std::fs::remove_file(&file);
+    out
+}
+
+async fn serve_and_read(child: &mut std::process::Child, port: u16) -> Vec<Vec<Tok>> {
+    use databroker_proto::kuksa::val::v1 as p1;
+    {
+
         let mut channel = None;
-        for _ in 0..400 {
+        for _ in 0..1500 {
             if let Ok(Some(_status)) = child.try_wait() {
                 return vec![vec![1]];
             }
@@ -197,9 +219,5 @@ pub fn run_case_binary(case: &[Vec<Tok>]) -> Vec<Vec<Tok>> {
                 out
             }
         }
-    });
-    let _ = child.kill();
-    let _ = child.wait();
-    let _ = std::fs::remove_file(&file);
-    out
+    }
 }
